@@ -8,13 +8,22 @@ contract(N + '_f', 'C07', modifies=[],
          raises={'BiogemeError': 'self.x is None'},
          ensures={'minus_unscaled_likelihood': 'same(result, -self.like(self.x, scaled=False, batch=None))'})
 
-contract(N + '_f_g', 'C07', modifies=[], check_safe=False,
+# round 3 (m1): `check_safe=False` (every implicit exception ASSUMED away) replaced by the one explicit precondition it stood for: the
+# derivative callback returns the derivatives it was asked for (FunctionOutput declares them Optional; the callback of BIOGEME.optimize is
+# calculate_likelihood_and_derivatives, whose contract (C02/C04/C15) gives arrays for gradient, Hessian and BHHH).  The callback is a pure
+# function of its arguments (A-CALLABLE), so the call in the precondition denotes the value the body receives.
+_OUT = 'typed(self.like_derivatives(self.x, scaled=False, hessian={h}, bhhh=False, batch=None), "FunctionOutput")'
+
+contract(N + '_f_g', 'C07', modifies=[],
+         requires={'callback_returns_a_gradient': f"implies(self.x is not None, {_OUT.format(h='False')}.gradient is not None)"},
          raises={'BiogemeError': 'self.x is None'},
          ensures={'function': 'same(result.function, -typed(self.like_derivatives(self.x, scaled=False, hessian=False, bhhh=False, batch=None), "FunctionOutput").function)',
                   'gradient': 'same(result.gradient, -typed(self.like_derivatives(self.x, scaled=False, hessian=False, bhhh=False, batch=None), "FunctionOutput").gradient)',
                   'no_hessian': 'result.hessian is None'})
 
-contract(N + '_f_g_h', 'C07', modifies=[], check_safe=False,
+contract(N + '_f_g_h', 'C07', modifies=[],
+         requires={'callback_returns_gradient_and_hessian': f"implies(self.x is not None, {_OUT.format(h='True')}.gradient is not None and "
+                                                            f"{_OUT.format(h='True')}.hessian is not None)"},
          raises={'BiogemeError': 'self.x is None'},
          ensures={'function': 'same(result.function, -typed(self.like_derivatives(self.x, scaled=False, hessian=True, bhhh=False, batch=None), "FunctionOutput").function)',
                   'gradient': 'same(result.gradient, -typed(self.like_derivatives(self.x, scaled=False, hessian=True, bhhh=False, batch=None), "FunctionOutput").gradient)',
